@@ -91,6 +91,7 @@ func (p *Program) genFunc(c *Ctx, fn *ssa.Function, ct *Contract) {
 	g := tTrue
 	fr := c.newFrame(fn, nil)
 	fr.contract = ct
+	c.unitContract = ct
 	c.allocName()
 	// parameters: arbitrary values of their types
 	for _, prm := range fn.Params {
